@@ -93,9 +93,9 @@ Definition segMetaFromTimeG (ck : chk) (r : rep) (loopMS : Z) (c : tcfg) (time n
   let timeAfterWrap := time - wrapTime in
   let idx := searchIdx (fun s => st s >=? timeAfterWrap) (segs r) in
   match nthZ idx (segs r) with
-  | None => TErr "no matching segment"
+  | None => TNotFound                      (* no matching segment: 404 *)
   | Some s =>
-    if negb (st s =? timeAfterWrap) then TErr "segment time mismatch" else
+    if negb (st s =? timeAfterWrap) then TNotFound (* not a segment start: 404 *) else
     timed (ck (en s + wrapTime + mediaRef) (ts r) nowMS (tsbdS c) (ato c))
       (TOk {| origTime := st s; newTime := time; origNr := snr s;
               newNr := u32 (startNr c + idx + nrWraps * lenZ (segs r));
@@ -107,7 +107,7 @@ Definition lookupG (ck : chk) (r : rep) (loopMS : Z) (c : tcfg) (mode : addressi
   match mode with
   | ByNumber =>
     let nr := u32 segID in
-    if nr <? u32 (startNr c) then TNotFound else segMetaFromNrG ck r loopMS c nr nowMS
+    if (segID >? maxu32) || (nr <? u32 (startNr c)) then TNotFound else segMetaFromNrG ck r loopMS c nr nowMS
   | ByTime => segMetaFromTimeG ck r loopMS c (u64 segID) nowMS
   end.
 
@@ -127,7 +127,7 @@ Lemma lookupG_ext (ck1 ck2 : chk) r loopMS c mode segID now :
   lookupG ck1 r loopMS c mode segID now = lookupG ck2 r loopMS c mode segID now.
 Proof.
   intros H. unfold lookupG, segMetaFromNrG, segMetaFromTimeG. destruct mode.
-  - destruct (_ <? _); [reflexivity|]. destruct (_ =? 0); [reflexivity|].
+  - destruct (_ || _); [reflexivity|]. destruct (_ =? 0); [reflexivity|].
     destruct (nthZ _ _); [|reflexivity]. rewrite H. reflexivity.
   - destruct (_ =? 0); [reflexivity|]. destruct (nthZ _ _); [|reflexivity].
     destruct (negb _); [reflexivity|]. rewrite H. reflexivity.
